@@ -238,9 +238,9 @@ def run(tier, seed):
     t0 = time.time()
     total = Result()
     if tier == 'quick':
-        nmax, kmax, nseq, variants, mult = 4, 4, 2400, [('release', 1.0), ('dev', 0.3)], 1
+        nmax, kmax, nseq, variants, mult = 4, 4, 2400, [('release', 1.0), ('dev', 0.3), ('plain', 0.15)], 1
     else:
-        nmax, kmax, nseq, variants, mult = 5, 5, 40000, [('release', 1.0), ('dev', 0.2), ('nightly', 0.1)], 8
+        nmax, kmax, nseq, variants, mult = 5, 5, 40000, [('release', 1.0), ('dev', 0.2), ('nightly', 0.1), ('plain', 0.1)], 8
     try:
         for variant, frac in variants:
             binary = build(variant)
